@@ -1,12 +1,11 @@
 SPECIFICATION Spec
-CONSTANTS Variant = "code" RecordHist = FALSE MaxCmds = 5
+CONSTANTS Variant = "bogus" RecordHist = FALSE MaxCmds = 5
 CONSTANT Threads <- MCThreads1
 CONSTANT Prog <- MCProgErr
 CONSTANT Lines <- MCLines
 INVARIANT TypeOK
 INVARIANT NoLostWakeup
 INVARIANT ContinueReleases
-INVARIANT ReportedIsSuspended
 INVARIANT BreakpointsSuspend
 PROPERTY StopReleasesAll
 CHECK_DEADLOCK FALSE
